@@ -362,7 +362,9 @@ func SeedFromEnv() int64 {
 
 // GoCacheDir is the build cache shared by all checks (thousands of generated driver packages are compiled per
 // run; the default cache grew to tens of GB). It is only a cache: TrimGoCache empties it when it gets large.
-func GoCacheDir() string { return getenv("VERIF_GOCACHE", filepath.Join(os.TempDir(), "verif-gocache")) }
+func GoCacheDir() string {
+	return getenv("VERIF_GOCACHE", filepath.Join(os.TempDir(), "verif-gocache"))
+}
 
 // TrimGoCache removes the shared build cache when it exceeds limitMB.
 func TrimGoCache(limitMB int64) {
